@@ -5,5 +5,5 @@ cd "$(dirname "$0")"
 export CARGO_NET_OFFLINE=true
 (cd harness && cargo build 2>&1 | tail -3)
 ./harness/target/debug/nvh translate --lean "$(pwd)/lean"
-(cd lean && lake build 2>&1 | tail -3)
+(cd lean && lake build 2>&1 | grep -E "^error|completed" | tail -5)
 echo "setup done"
